@@ -7,6 +7,7 @@ package node
 //
 //@ mode int
 //@ implicit [C05]
+//@ option merged-append
 //
 // Displaying a parse error with its caret line never fails, provided the reported span lies
 // inside the input (which the scanner guarantees for every span it hands out).
@@ -151,6 +152,8 @@ package node
 //@   loop 0 invariant[args] -1 <= rangeindex && emitInv(cr)
 //@ func (Assign).byteCode [C05,C12] implements ByteCoder.byteCode
 //@   assumes[unfold] exprOK(a.Value) && wfAST(a.VarRef) && (dyntype(a.VarRef) == typeid[Name]() || dyntype(a.VarRef) == typeid[Local]())
+//@ func (BinOp).byteCode [C05,C12] implements ByteCoder.byteCode
+//@   assumes[unfold] exprOK(b.Left) && exprOK(b.Right)
 //@ func (UnOp).byteCode [C05,C12] implements ByteCoder.byteCode
 //@   assumes[unfold] exprOK(u.Target) && (u.Op == "-" || u.Op == "#" || u.Op == "!" || u.Op == "~")
 //@ func (Block).byteCode [C05,C12] implements ByteCoder.byteCode
